@@ -699,7 +699,9 @@ def tie_groups(ctx, rng):
         seen.add(e['model'])
         names = list(ms[e['model']].__param_names__)
         P = len(e['perm'])
-        others = [v for v in TIE_VARIANTS[1:] if tie_params(random.Random(0), names, v)[1] > 0]
+        # the further variants that tie something and differ from 'sizes' for this model ('all' = 'sizes' when there is nothing else to tie)
+        ref = tie_params(random.Random(0), names, 'sizes')[0]
+        others = [v for v in TIE_VARIANTS[1:] if tie_params(random.Random(0), names, v)[1] > 0 and tie_params(random.Random(0), names, v)[0] != ref]
         if ctx.quick:
             # (a 3-population swap group costs 0.2 - 0.9 s: in quick only the 'sizes' vector for those)
             variants = ['sizes'] + ([others[rot % len(others)]] if others and P == 2 else [])
@@ -718,9 +720,8 @@ def tie_groups(ctx, rng):
         seen_a.add(e['A'])
         P = ndim_of(e['A'], ms[e['A']])
         na = list(ms[e['A']].__param_names__)
-        for v in ([TIE_VARIANTS[len(seen_a) % len(TIE_VARIANTS)]] if ctx.quick else TIE_VARIANTS):
-            if tie_params(random.Random(0), na, v)[1] == 0:
-                v = 'all'
+        vs = [v if tie_params(random.Random(0), na, v)[1] else 'all' for v in ([TIE_VARIANTS[len(seen_a) % len(TIE_VARIANTS)]] if ctx.quick else TIE_VARIANTS)]
+        for v in sorted(set(vs), key=vs.index):
             pa, pb = nest_params(e, rng, wide='tie:' + v)
             groups.append({'kind': 'nest', 'A': e['A'], 'B': e['B'], 'nesting': e['kind'], 'point': e['point'], 'pa': pa, 'pb': pb, 'ns': rand_ns(rng, P), 'pts': PTS[P],
                            'tie': v})
